@@ -91,6 +91,10 @@ func genDocKey(t *rapid.T, id string, consistent bool) map[string]interface{} {
 		for _, p := range perm[:n] {
 			ps = append(ps, p)
 		}
+		if len(ps) < 5 && rapid.IntRange(0, 5).Draw(t, "repeatPurpose") == 0 {
+			// a repeated purpose is legal (the constraints bound the number and the values only)
+			ps = append(ps, ps[rapid.IntRange(0, len(ps)-1).Draw(t, "repeated")])
+		}
 		key["purposes"] = ps
 	}
 	var mat *Key
@@ -105,7 +109,7 @@ func genDocKey(t *rapid.T, id string, consistent bool) map[string]interface{} {
 		mat = genKey(t, "material")
 	}
 	useB58 := typ != tJWK2020 && rapid.IntRange(0, 2).Draw(t, "b58") == 0
-	if !consistent && !useB58 && rapid.IntRange(0, 7).Draw(t, "rsaJwk") == 0 {
+	if (!consistent || typ == tJWK2020) && !useB58 && rapid.IntRange(0, 7).Draw(t, "rsaJwk") == 0 {
 		// a complete RSA JWK is a well-formed JWK too
 		key["publicKeyJwk"] = map[string]interface{}{"kty": "RSA", "n": "sXchDaQebHnPiGvyDOAT4saGEUetSyo9MKLOoWFsueri23bOdgWp4Dy1WlUzewbgBHod5pcM9H95GQRV3JDXboIRROSBigeC5yjU1hGzHHyXss8UDprecbAYxknTcQkhslANGRUZmdTOQ5qTRsLAt6BTYuyvVRdhS8exSZEy_c4gs_7svlJJQ4H9_NxsiIoLwAEk7-Q3UXERGYw_75IDrGA84-lA_-Ct4eTlXHBIY2EaV7t7LjJaynVJCpkv4LKjTTAumiGUIuQhrNhZLuF_RJLqHpM2kgWFLU7-VTdL1VbC2tejvcI2BlMkEpk1BzBZI0KQB0GaDWFLN-aEAw3vRw", "e": "AQAB"}
 		return key
@@ -114,13 +118,23 @@ func genDocKey(t *rapid.T, id string, consistent bool) map[string]interface{} {
 		x, _ := mat.XY()
 		key["publicKeyBase58"] = base58.Encode(x)
 	} else {
-		key["publicKeyJwk"] = docJWK(mat)
+		jwk := docJWK(mat)
+		if rapid.IntRange(0, 3).Draw(t, "jwkExtras") == 0 {
+			// further JWK members (RFC 7517) are legal and belong to the key material
+			for _, name := range []string{"alg", "kid", "use", "key_ops", "ext"} {
+				if rapid.Bool().Draw(t, "extra-"+name) {
+					jwk[name] = map[string]interface{}{"alg": mat.Type.Alg(), "kid": id + "-kid", "use": "sig", "key_ops": []interface{}{"verify"}, "ext": true}[name]
+				}
+			}
+		}
+		key["publicKeyJwk"] = jwk
 	}
 	return key
 }
 
 var goodURIs = []string{"https://example.com/a", "http://hub.example.com/.identity/did:example:0123456789abcdef/", "did:example:123",
 	"https://a.b/c?d=e#f", "/relative/path", "urn:uuid:6ba7b810-9dad-11d1-80b4-00c04fd430c8", "HTTP://Upper.example", "https://example.com/%7Euser"}
+
 // akaURIs: also-known-as URIs, including spellings that are not fixed points of URL normalisation (the composer treats
 // them as plain strings)
 var akaURIs = []string{"HTTP://Upper.example", "http://Upper.example", "https://example.com/profile", "https://example.com/zo%C3%AB", "https://example.com/zo\u00eb", "https://example.com/profile#", "https://example.com/a", "did:example:123",
@@ -214,7 +228,7 @@ func genURIList(t *rapid.T, min, max int) []interface{} {
 	return out
 }
 
-var otherMemberNames = []string{"name", "test", "x", "publicKeyX", "service2", "publi", "servic", "extra_1", "@meta", "Service", "o", "p", "arr", "a/b", "m~n", "x~1y", "x/y", "", "0"}
+var otherMemberNames = []string{"name", "test", "x", "publicKeyX", "service2", "publi", "servic", "extra_1", "@meta", "Service", "o", "p", "arr", "a/b", "m~n", "x~1y", "x/y", "", "0", "discount%", "a%%b", "50%off", "%s", "%d%v"}
 
 // genOtherMembers draws "other" top-level members with ordinary names (no JSON-pointer or quoting metacharacters).
 func genOtherMembers(t *rapid.T, max int) map[string]interface{} {
@@ -803,7 +817,20 @@ func genPointer(t *rapid.T, doc interface{}, label string, avoidProtected bool) 
 		ptrs = keep
 	}
 	res := ""
-	switch rapid.IntRange(0, 9).Draw(t, label+"-kind") {
+	switch rapid.IntRange(0, 10).Draw(t, label+"-kind") {
+	case 3:
+		// an existing array addressed with an index that is not one (negative, padded, signed, huge, fractional)
+		var arrays []string
+		for _, p := range ptrs {
+			if strings.HasSuffix(p, "/-") {
+				arrays = append(arrays, strings.TrimSuffix(p, "-"))
+			}
+		}
+		if len(arrays) == 0 {
+			res = "/" + rapid.SampledFrom(otherMemberNames).Draw(t, label+"-top")
+		} else {
+			res = rapid.SampledFrom(arrays).Draw(t, label+"-array") + rapid.SampledFrom([]string{"-1", "-2", "01", "+0", "1e0", "99999999999999999999", " 0", "0.0", "-0", ""}).Draw(t, label+"-badIndex")
+		}
 	case 0:
 		base := rapid.SampledFrom(ptrs).Draw(t, label+"-base")
 		base = strings.TrimSuffix(base, "/-")
